@@ -190,7 +190,7 @@ def oracle_pad(c, o):
 # metamorphic families on the implementation (no model side): each returns the list of results for all encodings
 def gen_meta(rng, tier):
     cases = []
-    kinds = ['fft', 'findiff', 'functional', 'wavelet', 'sliding_window', 'reduce_view', 'filter']
+    kinds = ['fft', 'findiff', 'functional', 'wavelet', 'sliding_window', 'reduce_view', 'filter', 'prewhiten']
     for _ in range(40 if tier == 'quick' else 600):
         nd = rng.randint(2, 4)
         shape = [rng.randint(2, 5) for _ in range(nd)]
@@ -233,6 +233,21 @@ def impl_meta(c):
                 f = L1Norm(dim=tuple(enc), divide_by_n=True, keepdim=True)
                 h = L2NormSquared(dim=tuple(enc), divide_by_n=False, keepdim=False)
                 res = torch.cat([f(x)[0].flatten(), h(x)[0].flatten(), f.prox(x, 0.5)[0].flatten()])
+            elif kind == 'functional_target':
+                # target (and weight) with more leading dims than x: the reduced sizes are those of the broadcast shape
+                tgt = torch.randint(-3, 4, (2, *c['shape']), generator=torch.Generator().manual_seed(c['seed'] + 1)).to(torch.float64)
+                ndb = nd + 1
+                enc_b = tuple(a + 1 if a >= 0 else a for a in enc)   # the same axes of the broadcast shape
+                from mrpro.operators.functionals import MSE, L1NormViewAsReal
+                outs = []
+                for cls_ in (L2NormSquared, MSE, L1Norm, L1NormViewAsReal):
+                    f = cls_(target=tgt, weight=2.0, dim=enc_b, divide_by_n=True, keepdim=False)
+                    outs += [f(x)[0].flatten(), f.prox(x, 0.5)[0].flatten(), f.prox_convex_conj(x, 0.5)[0].flatten()]
+                res = torch.cat(outs)
+            elif kind == 'prewhiten':
+                res = _prewhiten_batching(c)
+                results.append([list(res.shape), res.flatten().tolist()])
+                break
             elif kind == 'wavelet':
                 if any(c['shape'][a] < 2 for a in axes):
                     return {'skip': True}
@@ -256,12 +271,31 @@ def impl_meta(c):
     return {'results': results, 'batch_ok': batch_ok}
 
 
+def _prewhiten_batching(c):
+    """prewhitening a stack along `other` equals stacking the prewhitened elements (returns the deviation)"""
+    from mrpro.algorithms.prewhiten_kspace import prewhiten_kspace
+    from mrpro.data import KNoise
+    from props import C07
+    g = torch.Generator().manual_seed(c['seed'])
+    no, nc, n2, n1, n0 = 2 + c['seed'] % 2, 2, 1 + c['seed'] % 3, 2 + c['seed'] % 2, 3
+    cfg = {'n_other': no, 'n_coils': nc, 'k1': list(range(n1)), 'n_k0': n0, 'enc_y': n1, 'recon_y': n1, 'recon_x': n0, 'n_k2': n2}
+    data = (torch.randint(-3, 4, (no, nc, n2, n1, n0), generator=g) + 1j * torch.randint(-3, 4, (no, nc, n2, n1, n0), generator=g)).to(torch.complex64)
+    nz = (torch.randint(-3, 4, (nc, 1, 1, 16), generator=g) + 1j * torch.randint(-3, 4, (nc, 1, 1, 16), generator=g)).to(torch.complex64)
+    nz = nz + (torch.eye(nc, 16) * 6).reshape(nc, 1, 1, 16)
+    noise = KNoise(data=nz)
+    whole = prewhiten_kspace(C07._make_kdata(cfg, data), noise).data
+    parts = [prewhiten_kspace(C07._make_kdata(dict(cfg, n_other=1), data[o:o + 1]), noise).data for o in range(no)]
+    return torch.view_as_real((whole - torch.cat(parts)).abs().max().reshape(1).to(torch.complex64))
+
+
 def oracle_meta(c, o):
     if isinstance(o, dict) and o.get('skip'):
         return None
     if isinstance(o, dict) and 'raises' in o:
         return f'crashed: {o}'
     rs = o['results']
+    if c['kind'] == 'prewhiten' and rs and not isinstance(rs[0], dict):
+        return None if max(abs(v) for v in rs[0][1]) < 1e-5 else f'prewhiten_kspace of a stack along `other` differs from the stacked results by {max(abs(v) for v in rs[0][1]):.3g}'
     if all(isinstance(r, dict) for r in rs) and len({r['raises'] for r in rs}) == 1:
         return None  # the configuration is outside the operation's domain for every encoding alike (e.g. odd size for ptwt)
     for enc, r in zip(_encodings(c['axes'], len(c['shape'])), rs):
